@@ -40,6 +40,14 @@ pub struct PathN {
 pub struct PathW {
     pub rest: Vec<String>,
 }
+/// two variables and then a wildcard: registered (for another method) directly below
+/// the `paths` endpoint, so that endpoint's node has a wildcard child
+#[derive(Deserialize, Serialize, JsonSchema, Clone, Debug)]
+pub struct PathSW {
+    pub a: String,
+    pub b: String,
+    pub rest: Vec<String>,
+}
 #[derive(Deserialize, Serialize, JsonSchema, Clone, Debug)]
 pub struct QAll {
     pub s: String,
@@ -162,6 +170,11 @@ pub async fn h_pathn(rqctx: RequestContext<C>, p: Path<PathN>) -> Result<HttpRes
     done(&rqctx, uid, meta, args)
 }
 pub async fn h_pathw(rqctx: RequestContext<C>, p: Path<PathW>) -> Result<HttpResponseOk<Value>, HttpError> {
+    let (uid, meta) = enter(&rqctx).await;
+    let args = json!({"path": serde_json::to_value(p.into_inner()).unwrap()});
+    done(&rqctx, uid, meta, args)
+}
+pub async fn h_pathsw(rqctx: RequestContext<C>, p: Path<PathSW>) -> Result<HttpResponseOk<Value>, HttpError> {
     let (uid, meta) = enter(&rqctx).await;
     let args = json!({"path": serde_json::to_value(p.into_inner()).unwrap()});
     done(&rqctx, uid, meta, args)
@@ -295,6 +308,7 @@ pub fn echo_api(overrides: &[usize]) -> ApiDescription<C> {
     reg(ApiEndpoint::new("paths".into(), h_paths, Method::PUT, j, "/p/{a}/{b}", all()));
     reg(ApiEndpoint::new("pathn".into(), h_pathn, Method::GET, j, "/pn/{u}/{i}/{f}/{flag}/{e}", all()));
     reg(ApiEndpoint::new("pathw".into(), h_pathw, Method::GET, j, "/w/{rest:.*}", all()).visible(false));
+    reg(ApiEndpoint::new("pathsw".into(), h_pathsw, Method::DELETE, j, "/p/{a}/{b}/{rest:.*}", all()).visible(false));
     reg(ApiEndpoint::new("query".into(), h_query, Method::GET, j, "/q", all()));
     reg(ApiEndpoint::new("pag".into(), h_pag, Method::GET, j, "/pag", all()));
     reg(ApiEndpoint::new("health".into(), h_health, Method::GET, j, "/health", all()));
